@@ -162,6 +162,10 @@ impl TaskManager {
 	}
 
 	pub(crate) fn wake_up_memtable(&self) {
+		#[cfg(surrealkv_verif)]
+		if crate::verif::manual_background() {
+			return;
+		}
 		// Only notify if not already running
 		if !self.memtable_running.load(Ordering::Acquire) {
 			self.memtable_notify.notify_one();
@@ -169,6 +173,10 @@ impl TaskManager {
 	}
 
 	pub(crate) fn wake_up_level(&self) {
+		#[cfg(surrealkv_verif)]
+		if crate::verif::manual_background() {
+			return;
+		}
 		// Only notify if not already running
 		if !self.level_running.load(Ordering::Acquire) {
 			self.level_notify.notify_one();
